@@ -3236,11 +3236,29 @@ PIP_Solution_Node::solve(const PIP_Problem& pip,
           return nullptr;
         }
         else {
-          // t_node unfeasible, f_node feasible:
-          // restore cs and aps into f_node (i.e., this).
-          PPL_ASSERT(f_node == this);
-          // Note: keep the constraints and the artificial parameters
-          // that the recursive resolution added to f_node.
+          // t_node unfeasible, f_node feasible.
+          // NOTE: the recursive resolution may have returned a node
+          // different from `this'; as done below for t_node, if it is
+          // a decision node having both children we cannot merge into it
+          // (it must keep a single constraint): create a new decision node.
+          const PIP_Decision_Node* const f_decision_node_p
+            = dynamic_cast<PIP_Decision_Node*>(f_node);
+          if (f_decision_node_p != nullptr
+              && f_decision_node_p->false_child != nullptr) {
+            PIP_Tree_Node* const parent
+              = new PIP_Decision_Node(f_node->get_owner(), nullptr, f_node);
+            // Protect new 'parent' node from exception safety issues.
+            safe_node.release_and_reset(parent);
+            // Restore into parent `cs' and `aps'.
+            swap(parent->constraints_, cs);
+            swap(parent->artificial_parameters, aps);
+            // Add f_test to parent's constraints.
+            parent->add_constraint(f_test, all_params);
+            return safe_node.get_and_release();
+          }
+          // Restore cs and aps into f_node, keeping the constraints and
+          // the artificial parameters that the recursive resolution
+          // added to it.
           for (Constraint_System::const_iterator
                  i = f_node->constraints_.begin(),
                  i_end = f_node->constraints_.end(); i != i_end; ++i) {
